@@ -208,7 +208,14 @@ func checkC02(p *Prog, r *Report) {
 	if nil == fcall {
 		rCycle.Bad(fnName(fn)+":flush", fn.Pos(), "no call of a flush function found in the input proxy: lines wait in a buffer until later input")
 	} else if nil != wcall {
-		if bad := mustPass(locOf(wcall), isSel, func(i ssa.Instruction) bool { return i == ssa.Instruction(fcall) }); nil != bad {
+		/* (a flush value which is nil where the writer has nothing to
+		flush, called below a nil test: the way round the call is the
+		no-op flush) */
+		noEdges := map[Edge]bool{}
+		if g, ns, ok := nilGuardOf(p, fn, fcall); ok && nil != g {
+			noEdges[Edge{g.Block().Index, g.Block().Succs[ns].Index}] = true
+		}
+		if bad := (reachQ{From: locOf(wcall), Target: isSel, Block: func(i ssa.Instruction) bool { return i == ssa.Instruction(fcall) }, NoEdges: noEdges}).run(); nil != bad {
 			rCycle.Bad(fnName(fn)+":flush", posOf(fcall), "a written line is not always flushed before the next line is taken (a path from the write to the next receive skips the flush)")
 		} else {
 			rCycle.OK(fnName(fn)+":flush", posOf(fcall), "every write is followed by a flush before the next receive")
@@ -711,6 +718,11 @@ func checkFlushSelection(p *Prog, ru *Rule, fn *ssa.Function, fcall *ssa.Call, w
 		cf, binds := closureOf(e)
 		kind := "unknown"
 		switch {
+		case isNilConst(e):
+			/* Nothing to call: the no-op, provided the call is guarded. */
+			if g, _, ok := nilGuardOf(p, fn, fcall); ok && nil != g {
+				kind = "no-op"
+			}
 		case nil == cf:
 		case "" != cf.Synthetic && nil != cf.Object() && "FlushError" == cf.Object().Name():
 			kind = "FlushError"
@@ -980,4 +992,31 @@ func checkBidirJoined(p *Prog, r *Report, ru *Rule) {
 			}
 		})
 	}
+}
+
+// nilGuardOf: the function value fcall calls can be nil on some ways into its
+// phi ("nothing to flush") and fcall stands below the non-nil edge of a test
+// of that very value: returns the test and the index of its nil successor.
+// (nil, -1, true) when no candidate is nil; ok is false when a nil candidate
+// exists but the call is not guarded (it would panic).
+func nilGuardOf(p *Prog, fn *ssa.Function, fcall *ssa.Call) (*ssa.If, int, bool) {
+	phi, isPhi := p.resolveUp(fcall.Common().Value).(*ssa.Phi)
+	if !isPhi {
+		return nil, -1, true
+	}
+	hasNil := false
+	for _, e := range phi.Edges {
+		if isNilConst(e) {
+			hasNil = true
+		}
+	}
+	if !hasNil {
+		return nil, -1, true
+	}
+	for _, t := range nilTestsOf(fn, fcall.Common().Value) {
+		if edgeDominates(t.If, 1-t.NilSucc, fcall) {
+			return t.If, t.NilSucc, true
+		}
+	}
+	return nil, -1, false
 }
